@@ -38,7 +38,9 @@ type Param struct {
 }
 
 type Fn struct {
-	Recv   bool // pointer-receiver method on *T (the receiver comes from a package-level *T)
+	Recv   bool   // pointer-receiver method (the receiver comes from a package-level variable)
+	RecvU  bool   `json:",omitempty"` // the receiver type is U instead of T
+	Name   string `json:",omitempty"` // method name; the same name exists on both receiver types
 	Params []Param
 }
 
@@ -139,7 +141,8 @@ func genVar(t *rapid.T, typ string) GVar {
 
 func genProg(t *rapid.T, nchains int) c19Prog {
 	var p c19Prog
-	p.Vars = append(p.Vars, GVar{Type: "*T", Init: "&T{a: 7}"}) // receiver
+	p.Vars = append(p.Vars, GVar{Type: "*T", Init: "&T{a: 7}"}, GVar{Type: "*U", Init: "&U{b: 3}"}) // receivers
+	nT, nU := 0, 0
 	for c := 0; c < nchains; c++ {
 		var ch Chain
 		nf := rapid.IntRange(1, 3).Draw(t, "nfuncs")
@@ -148,6 +151,17 @@ func genProg(t *rapid.T, nchains int) c19Prog {
 		forwarded := map[string]uint64{}
 		for f := 0; f < nf; f++ {
 			fn := Fn{Recv: oneIn(t, 3, "method")}
+			if fn.Recv {
+				// methods of the two receiver types share their names (run0, run1, ...)
+				fn.RecvU = rapid.Bool().Draw(t, "recvU")
+				if fn.RecvU {
+					fn.Name = fmt.Sprintf("run%d", nU)
+					nU++
+				} else {
+					fn.Name = fmt.Sprintf("run%d", nT)
+					nT++
+				}
+			}
 			np := rapid.IntRange(0, 7).Draw(t, "nparams")
 			for i := 0; i < np; i++ {
 				if rapid.IntRange(0, 9).Draw(t, "kindClass") < 5 {
@@ -195,10 +209,33 @@ func literal(p Param) string {
 
 func fnName(c, f int) string { return fmt.Sprintf("c%df%d", c, f) }
 
-// source renders the program.
-func (p *c19Prog) source() string {
-	var b strings.Builder
-	b.WriteString("package main\n\nimport (\n\t\"fmt\"\n\t\"math\"\n\t\"os\"\n\t\"unsafe\"\n)\n\nvar _ = math.Pi\nvar _ = unsafe.Pointer(nil)\n\ntype T struct{ a int }\n\n")
+func (p *c19Prog) name(c, f int) string {
+	if fn := p.Chains[c].Funcs[f]; fn.Recv && fn.Name != "" {
+		return fn.Name
+	}
+	return fnName(c, f)
+}
+
+func (fn *Fn) recvType() string {
+	if fn.RecvU {
+		return "U"
+	}
+	return "T"
+}
+
+// fileOf: the functions of odd chains live in a second source file.
+func fileOf(c int) string {
+	if c%2 == 1 {
+		return "b.go"
+	}
+	return "main.go"
+}
+
+// sources renders the program as two files of package main.
+func (p *c19Prog) sources() map[string]string {
+	var b, b2 strings.Builder
+	b.WriteString("package main\n\nimport (\n\t\"fmt\"\n\t\"math\"\n\t\"os\"\n\t\"unsafe\"\n)\n\nvar _ = math.Pi\nvar _ = unsafe.Pointer(nil)\n\ntype T struct{ a int }\n\ntype U struct{ b int }\n\n")
+	b2.WriteString("package main\n\nimport \"math\"\n\nvar _ = math.Pi\n")
 	for i, v := range p.Vars {
 		fmt.Fprintf(&b, "var g%d %s = %s\n", i, v.Type, v.Init)
 	}
@@ -215,25 +252,29 @@ func (p *c19Prog) source() string {
 	}
 	b.WriteString("}\n")
 	for c, ch := range p.Chains {
+		w := &b
+		if fileOf(c) == "b.go" {
+			w = &b2
+		}
 		for f, fn := range ch.Funcs {
-			b.WriteString("\n//go:noinline\nfunc ")
+			w.WriteString("\n//go:noinline\nfunc ")
 			if fn.Recv {
-				b.WriteString("(t *T) ")
+				w.WriteString("(t *" + fn.recvType() + ") ")
 			}
-			b.WriteString(fnName(c, f) + "(")
+			w.WriteString(p.name(c, f) + "(")
 			for i, pr := range fn.Params {
 				if i > 0 {
-					b.WriteString(", ")
+					w.WriteString(", ")
 				}
-				fmt.Fprintf(&b, "p%d %s", i, pr.Type)
+				fmt.Fprintf(w, "p%d %s", i, pr.Type)
 			}
-			b.WriteString(") {\n")
+			w.WriteString(") {\n")
 			if f+1 < len(ch.Funcs) {
-				b.WriteString("\t" + p.call(c, f+1) + "\n")
+				w.WriteString("\t" + p.call(c, f+1) + "\n")
 			} else {
-				b.WriteString("\tptrs()\n\tpanic(\"boom\")\n")
+				w.WriteString("\tptrs()\n\tpanic(\"boom\")\n")
 			}
-			b.WriteString("}\n")
+			w.WriteString("}\n")
 		}
 	}
 	b.WriteString("\nfunc main() {\n\tswitch os.Args[1] {\n")
@@ -241,7 +282,12 @@ func (p *c19Prog) source() string {
 		fmt.Fprintf(&b, "\tcase \"%d\":\n\t\t%s\n", c, p.call(c, 0))
 	}
 	b.WriteString("\t}\n}\n")
-	return b.String()
+	return map[string]string{"main.go": b.String(), "b.go": b2.String()}
+}
+
+func (p *c19Prog) source() string {
+	m := p.sources()
+	return "// main.go\n" + m["main.go"] + "\n// b.go\n" + m["b.go"]
 }
 
 func (p *c19Prog) call(c, f int) string {
@@ -257,8 +303,11 @@ func (p *c19Prog) call(c, f int) string {
 	recv := ""
 	if fn.Recv {
 		recv = "g0."
+		if fn.RecvU {
+			recv = "g1."
+		}
 	}
-	return recv + fnName(c, f) + "(" + strings.Join(args, ", ") + ")"
+	return recv + p.name(c, f) + "(" + strings.Join(args, ", ") + ")"
 }
 
 var rePTR = regexp.MustCompile(`(?m)^PTR (\d+) ([0-9a-f]+)$`)
@@ -280,8 +329,10 @@ func buildAndCrash(p *c19Prog, dir string) ([]crash, error) {
 	if err := os.WriteFile(filepath.Join(dir, "go.mod"), []byte("module example.com/crash\n\ngo 1.21\n"), 0o644); err != nil {
 		return nil, fmt.Errorf("HARNESS: %v", err)
 	}
-	if err := os.WriteFile(filepath.Join(dir, "main.go"), []byte(p.source()), 0o644); err != nil {
-		return nil, fmt.Errorf("HARNESS: %v", err)
+	for name, src := range p.sources() {
+		if err := os.WriteFile(filepath.Join(dir, name), []byte(src), 0o644); err != nil {
+			return nil, fmt.Errorf("HARNESS: %v", err)
+		}
 	}
 	cmd := exec.Command(goTool(), "build", "-gcflags", "-N -l", "-o", "prog", ".")
 	cmd.Dir = dir
@@ -452,15 +503,15 @@ func mutateSource(src string, kind int) (string, bool) {
 	case 2:
 		return "package main\nfunc ((( {\n" + src, true
 	case 3:
-		return strings.Replace(src, "type T struct", strings.Repeat("// shifted\n", 57)+"type T struct", 1), true
+		return strings.Replace(src, "\nvar _ = math.Pi", strings.Repeat("\n// shifted", 57)+"\nvar _ = math.Pi", 1), true
 	case 4:
-		return regexp.MustCompile(`(func (\(t \*T\) )?c\d+f\d+\()`).ReplaceAllString(src, "${1}extra0 string, "), true
+		return regexp.MustCompile(`(func (\(t \*[TU]\) )?(?:c\d+f\d+|run\d+)\()`).ReplaceAllString(src, "${1}extra0 string, "), true
 	case 5:
-		return regexp.MustCompile(`(func (\(t \*T\) )?c\d+f\d+\()p0 [^,)]+,? ?`).ReplaceAllString(src, "${1}"), true
+		return regexp.MustCompile(`(func (\(t \*[TU]\) )?(?:c\d+f\d+|run\d+)\()p0 [^,)]+,? ?`).ReplaceAllString(src, "${1}"), true
 	case 6:
 		return regexp.MustCompile(`p(\d+) (int|uint8|bool|string|float64)([,)])`).ReplaceAllString(src, "p${1} []string${3}"), true
 	case 7:
-		return regexp.MustCompile(`func (\(t \*T\) )?c(\d+)f(\d+)\(`).ReplaceAllString(src, "func ${1}renamed${2}x${3}("), true
+		return regexp.MustCompile(`func (\(t \*[TU]\) )?(c\d+f|run)(\d+)\(`).ReplaceAllString(src, "func ${1}renamed${2}x${3}("), true
 	case 8:
 		return "package other\n\nfunc Unrelated(a, b, c, d, e, f, g, h interface{}) {\n}\n", true
 	case 9:
@@ -478,11 +529,13 @@ func c19Oracle(p c19Prog) error {
 	}
 	st := statsFor("C19")
 	if p.Mutate != 0 {
-		src, keep := mutateSource(p.source(), p.Mutate)
-		if keep {
-			_ = os.WriteFile(filepath.Join(dir, "main.go"), []byte(src), 0o644)
-		} else {
-			_ = os.Remove(filepath.Join(dir, "main.go"))
+		for name, orig := range p.sources() {
+			src, keep := mutateSource(orig, p.Mutate)
+			if keep {
+				_ = os.WriteFile(filepath.Join(dir, name), []byte(src), 0o644)
+			} else {
+				_ = os.Remove(filepath.Join(dir, name))
+			}
 		}
 	}
 	for ci, cr := range crashes {
@@ -502,9 +555,9 @@ func c19Oracle(p c19Prog) error {
 				continue
 			}
 			for f, fn := range p.Chains[c].Funcs {
-				name := fnName(c, f)
+				name := p.name(c, f)
 				if fn.Recv {
-					name = "(*T)." + name
+					name = "(*" + fn.recvType() + ")." + name
 				}
 				call := findCall(with, name)
 				if call == nil {
@@ -512,7 +565,11 @@ func c19Oracle(p c19Prog) error {
 				}
 				params := fn.Params
 				if fn.Recv {
-					params = append([]Param{{Type: "*T", Var: 0}}, params...)
+					rv := Param{Type: "*T", Var: 0}
+					if fn.RecvU {
+						rv = Param{Type: "*U", Var: 1}
+					}
+					params = append([]Param{rv}, params...)
 				}
 				printed := flatCount(&call.Args)
 				w := 0
